@@ -24,8 +24,11 @@ CLAIMED = {
         text="DEVS.tla gives the sequential simulator semantics with lazily fixed handler programs; TLC checks exactly-once, order, clock "
              "discipline and agreement with a big-step reference run for every program up to the bound; simulated behaviours are replayed on "
              "the real DEVSSimulatorFloat/Int/Duration (request results, executed trace, clock, pending set, states compared) and recorded "
-             "runs of seeded random programs are validated against TraceDEVS.tla with all invariants evaluated at every step.",
-        design_ref="DESIGN.md §5 C02",
+             "runs of seeded random programs are validated against TraceDEVS.tla with all invariants evaluated at every step. "
+             "ClockListeners.tla specifies the clock discipline when TIME_CHANGED listeners (not only handlers) schedule events: TLC checks "
+             "clock / TIME_CHANGED monotonicity and nothing-in-the-past, refutes the pinned tree's deviation (constant OldClockDuringTC), and "
+             "recorded runs of such models are validated by TraceClockListeners.tla.",
+        design_ref="DESIGN.md §5 C02, §9.3",
         note="Trusted: projection (event identity = creation rank, times on the k/4 grid), quiescence wait on the run thread, TLC.",
     ),
     "C03": dict(
